@@ -39,7 +39,9 @@ static int64_t  next_id, next_isbox;
 static int64_t  newborn = -1;
 static int      cur_marks[MAXID]; static int ncur_marks;
 static char     obsbuf[65536]; static int obslen; static int obs_set;
-static long     n_ph, n_th, n_ms, n_sw;
+static long     n_ph, n_th, n_ms, n_sw, n_nest;
+#define MAXSPAWN 4
+static int      spawn[MAXID][MAXSPAWN]; static int nspawn[MAXID];   /* objects the destructor of <id> allocates */
 static var      PObj;
 
 static int64_t id_of(var p) {
@@ -66,6 +68,19 @@ static void PObj_New(var self, var args) { }
 static void PObj_Del(var self) {
   struct PObj* o = self;
   if (o->id >= 0 && o->id < MAXID) fin_cnt[o->id]++;
+  if (o->id >= 0 && o->id < MAXID && fin_cnt[o->id] == 1) {
+    /* a destructor that allocates: new managed plain probes, referenced from nowhere */
+    int me = (int)o->id;
+    int64_t save_newborn = newborn;
+    for (int k = 0; k < nspawn[me]; k++) {
+      int c = spawn[me][k];
+      if (c < 0 || c >= MAXID || known[c]) continue;
+      known[c] = 1; if (c > maxid_seen) maxid_seen = c;
+      next_id = c; next_isbox = 0; newborn = c;
+      objs[c] = new(PObj);
+    }
+    newborn = save_newborn;
+  }
   if (o->isbox) {
     if (o->val && G && G->running) {
       int hit = 0;
@@ -84,8 +99,12 @@ static var PObj = Cello(PObj,
 static void* lc_hook_realloc(void* p, size_t n) {
   struct GC* gc = G;
   n_sw++;
+  if (gc && gc->freenum > 0) n_nest++;       /* a collection started from inside a running sweep */
   if (gc) {
-    obs_set = 1; obslen = 0; obsbuf[0] = 0;
+    if (obs_set && obslen < (int)sizeof(obsbuf) - 8) { obsbuf[obslen++] = '/'; obsbuf[obslen] = 0; }
+    else { obslen = 0; obsbuf[0] = 0; }
+    obs_set = 1;
+    int first_item = 1;
     for (size_t i = 0; i < gc->nslots; i++) {
       if (gc->entries[i].hash == 0) continue;
       int64_t id = id_of(gc->entries[i].ptr);
@@ -95,9 +114,10 @@ static void* lc_hook_realloc(void* p, size_t n) {
         gc->entries[i].marked = m;
       }
       if (obslen < (int)sizeof(obsbuf) - 32) {
-        if (id < 0) obslen += sprintf(obsbuf + obslen, "%s?", obslen ? "," : "");
-        else obslen += sprintf(obsbuf + obslen, "%s%" PRId64 "%s%s", obslen ? "," : "", id,
+        if (id < 0) obslen += sprintf(obsbuf + obslen, "%s?", first_item ? "" : ",");
+        else obslen += sprintf(obsbuf + obslen, "%s%" PRId64 "%s%s", first_item ? "" : ",", id,
                                gc->entries[i].root ? "r" : "", gc->entries[i].marked ? "*" : "");
+        first_item = 0;
       }
     }
   }
@@ -154,13 +174,20 @@ static int __attribute__((noinline)) run_ops(char* ops) {
     char* colon = strchr(tok, ':');
     char c = tok[0];
     ncur_marks = 0; newborn = -1;
-    if (c == 'n' || c == 'b' || c == 'N' || c == 'B' || c == 'w' || c == 'W') {
+    if (c == 'n' || c == 'b' || c == 'N' || c == 'B' || c == 'w' || c == 'W' || c == 'a' || c == 'q') {
       if (colon) { *colon = 0; parse_marks(colon + 1); }
+      char* plus = strchr(tok, '+'); if (plus) *plus = 0;
       long id = strtol(tok + 1, NULL, 10);
       if (id < 0 || id >= MAXID || known[id]) { P(" | BADCASE"); return 0; }
+      nspawn[id] = 0;
+      while (plus && nspawn[id] < MAXSPAWN) {
+        char* e; long cidv = strtol(plus + 1, &e, 10);
+        spawn[id][nspawn[id]++] = (int)cidv;
+        plus = (*e == '+') ? e : NULL;
+      }
       known[id] = 1; if (id > maxid_seen) maxid_seen = (int)id;
       next_id = id; next_isbox = (c == 'b' || c == 'B' || c == 'W'); newborn = id;
-      var o = (c == 'n' || c == 'b') ? new(PObj) : (c == 'N' || c == 'B') ? new_root(PObj) : new_raw(PObj);
+      var o = (c == 'n' || c == 'b' || c == 'a') ? new(PObj) : (c == 'N' || c == 'B') ? new_root(PObj) : new_raw(PObj);
       objs[id] = o;
       if (id < NK) keep[id] = o;
       newborn = -1;
@@ -177,6 +204,7 @@ static int __attribute__((noinline)) run_ops(char* ops) {
         ((struct PObj*)objs[b])->val = objs[o];
       }
     } else if (c == 'd' || c == 'D' || c == 'x') {
+      if (colon) { *colon = 0; parse_marks(colon + 1); }
       long id = strtol(tok + 1, NULL, 10);
       if (!usable(id)) { P(" | BADCASE"); return 0; }
       var o = objs[id];
@@ -198,7 +226,7 @@ static int __attribute__((noinline)) run_ops(char* ops) {
   return 0;
 }
 
-static void trailer(void) { P(" ## ph=%ld th=%ld ms=%ld sw=%ld", n_ph, n_th, n_ms, n_sw); }
+static void trailer(void) { P(" ## ph=%ld th=%ld ms=%ld sw=%ld nest=%ld", n_ph, n_th, n_ms, n_sw, n_nest); }
 
 static void at_exit_dump(void) { G = NULL; emit_state(1); trailer(); fflush(OUT); }
 
